@@ -87,6 +87,9 @@ func (w *World) AttachFaultsOpt(run *explore.Run, only func(c *Call) bool, persi
 		if persistent && menu[0].Name == "500" {
 			menu = append(menu, Fault{"500-persistent", menu[0].Err})
 		}
+		if w.AmbiguousWrites && menu[0].Name == "500" && c.Verb != "get" && c.Verb != "list" {
+			menu = append(menu, Fault{"500-applied", menu[0].Err})
+		}
 		// keyed by call signature + occurrence, not by position: the order of independent calls may follow Go map
 		// iteration order, which the harness does not own
 		k := run.ChooseKeyed("fault:"+c.Sig(), len(menu)+1)
@@ -102,6 +105,11 @@ func (w *World) AttachFaultsOpt(run *explore.Run, only func(c *Call) bool, persi
 		}
 		taken = append(taken, Injected{Seq: c.Seq, Call: c.String(), Fault: f.Name})
 		c.Note = joinNote(c.Note, "INJECTED:"+f.Name)
+		if f.Name == "500-applied" {
+			// ambiguous failure: the server commits the write, the caller sees a 500 (IClient.end substitutes the error)
+			c.ambiguous = f.Err
+			return nil
+		}
 		return f.Err
 	}
 	w.Client.Hook = hook
